@@ -500,6 +500,8 @@ def small_alphabet(role):
                 syms.append({"k": "receive", "chunk": _pack({"id": i, "op": op, "controls": []})})
         syms.append({"k": "receive", "chunk": _pack({"id": 0, "op": {"k": "extResp", "res": res(52), "name": t(NOTICE), "value": None}, "controls": []})})
         syms.append({"k": "receive", "chunk": _pack({"id": 1, "op": {"k": "extReq", "name": t("1.2"), "value": None}, "controls": []})})
+        # an unsolicited notification (id 0) that is NOT the notice of disconnection: not a response for an operation in progress
+        syms.append({"k": "receive", "chunk": _pack({"id": 0, "op": {"k": "extResp", "res": res(0), "name": t("1.3.6.1.4.1.1466.20037"), "value": None}, "controls": []})})
         syms.append({"k": "receive", "chunk": ad_notice(1).hex()})      # Active Directory's framing of the notice, on an id that may be in progress
         return syms
     ext = lambda i: {"k": "receive", "chunk": _pack({"id": i, "op": {"k": "extReq", "name": t("1.2"), "value": None}, "controls": []})}
@@ -668,7 +670,8 @@ def scripted_histories():
     ext1 = pk({"id": 1, "op": {"k": "extResp", "res": res(0), "name": None, "value": None}, "controls": []})
     ext7 = pk({"id": 7, "op": {"k": "extResp", "res": res(0), "name": None, "value": None}, "controls": []})
     ext0 = pk({"id": 0, "op": {"k": "extResp", "res": res(0), "name": None, "value": None}, "controls": []})
-    for bad in (ext7, ext0, ext1 + ext1, bytes(ext_req(1))):
+    ext0n = pk({"id": 0, "op": {"k": "extResp", "res": res(0), "name": t("1.3.6.1.4.1.1466.20037"), "value": bytes(3).hex()}, "controls": []})
+    for bad in (ext7, ext0, ext0n, ext1 + ext1, bytes(ext_req(1))):
         for cut in (1, 3, len(ext2) - 1):
             hist(("c", ext_c), ("c", ext_c), ("c", rx(bad + ext2[:cut])), ("c", rx(ext2[cut:])))
             hist(("c", ext_c), ("c", ext_c), ("c", rx(ext1 + bad + ext2[:cut])), ("c", rx(ext2[cut:])))
